@@ -20,6 +20,7 @@ func Register() {
 		Stages: []rig.Stage{
 			{Name: "goroutines", Fn: c02Goroutines, Race: true, TimeoutQuick: 25 * time.Minute, TimeoutThorough: 4 * time.Hour},
 			{Name: "processes", Fn: c02Processes, TimeoutQuick: 25 * time.Minute, TimeoutThorough: 4 * time.Hour},
+			{Name: "conjoin", Fn: c02Conjoin, TimeoutQuick: 25 * time.Minute, TimeoutThorough: 4 * time.Hour},
 		}})
 	rig.Register(&rig.Spec{Prop: "C07", Level: "exploration",
 		Stages: []rig.Stage{{Name: "closure", Fn: c07, TimeoutQuick: 25 * time.Minute, TimeoutThorough: 4 * time.Hour}}})
